@@ -460,6 +460,18 @@ impl Gen {
                     v.push(rng.below(1 << 20) as i64);
                 }
                 let hint = if self.lying_hints && rng.below(3) == 0 { if rng.below(25) == 0 { self.max_hint } else { *rng.pick(&[0i64, 1, 7, 100, 1000, 3000]) } } else { -1 };
+                if kind == Kd::ExtendRef {
+                    // by-reference source: often short enough to fit the spare room, often with a repeated key
+                    let room = sv.cap.saturating_sub(sv.len);
+                    if room > 0 && rng.below(2) == 0 {
+                        v.truncate(2 * room.min(v.len() / 2));
+                    }
+                    let n = v.len() / 2;
+                    if n >= 2 && rng.below(2) == 0 {
+                        v[2 * (n - 1)] = v[0];
+                    }
+                    return Op::new(kind).s(s).a(-1).c(rng.below(2) as i64).v(v);
+                }
                 if kind == Kd::FromIter && rng.below(2) == 0 {
                     // From<[T; N]>: a short array, often with a repeated key
                     let n = *rng.pick(&[0usize, 1, 2, 3, 4, 5, 8]);
@@ -500,6 +512,10 @@ impl Gen {
                     // a collection compared with itself
                     t = s;
                 }
+                if matches!(kind, Kd::SetPred | Kd::SetOp) && rng.below(8) == 0 {
+                    // set predicates and the non-assigning operators with the same set on both sides
+                    t = s;
+                }
                 Op::new(kind).s(s).t(t).a(rng.below(16) as i64).v(self.iter_plan(rng, sv.len, false))
             }
             Kd::Entry => {
@@ -508,7 +524,10 @@ impl Gen {
                 if self.family == Family::Set {
                     return Op::new(kind).s(s).a(kid as i64).c(rng.below(6) as i64);
                 }
-                Op::new(kind).s(s).a(kid as i64).b(val).c((self.allow_forget && rng.below(5) == 0) as i64).v(self.entry_chain(rng, present))
+                let chain = self.entry_chain(rng, present);
+                // raw entries: a quarter of the vacant ones insert another key than the one looked up (c = 2)
+                let c = if (2..=4).contains(&chain[0]) && !present && rng.below(4) == 0 { 2 } else { (self.allow_forget && rng.below(5) == 0) as i64 };
+                Op::new(kind).s(s).a(kid as i64).b(val).c(c).v(chain)
             }
             Kd::GetMany | Kd::GetManyKv | Kd::TGetMany => {
                 let n = rng.below(5);
@@ -581,6 +600,7 @@ pub const MAP_CORE: &[(Kd, u32)] = &[
     (Kd::RemoveView, 2),
     (Kd::Entry, 8),
     (Kd::Extend, 3),
+    (Kd::ExtendRef, 2),
     (Kd::FromIter, 1),
     (Kd::Clear, 1),
     (Kd::Reserve, 2),
